@@ -12,7 +12,9 @@
 // which calls are pure, which are effects and which are unknown is decided by Lean functions in
 // NA/Model/LockSkelT.lean, and theorems in NA/Props/C12.lean are proved about this data.
 //
-// A site is (fn, args, lhs, ctx):
+// Round 3: graph.go adds the VTA call graph: `writers` per call site, all sink sites, the boundary.
+//
+// A site is (fn, args, lhs, ctx, writers):
 //
 //	fn   callee as written (`device.SetLock`, `syscall.Flock`); pseudo callees `return`,
 //	     `=`/`:=`/`+=` (assignment without a call on the right), `fallthrough`, `<stmt:T>` for a
@@ -21,6 +23,9 @@
 //	lhs  source text of the assigned variables (empty for expression statements / nested calls)
 //	ctx  enclosing control context, outermost first: `if COND`, `else COND`, `switch TAG`,
 //	     `case LIST`, `default`, `for`, `defer`, `go`, `funclit`
+//	writers  the writer functions (module functions that create/write/rename/remove a file, start a
+//	     process, talk to the device) reachable from the callees of this call in the VTA call graph,
+//	     and the sink API itself if this call is one; [] = nothing below this call writes or talks
 package main
 
 import (
@@ -40,10 +45,13 @@ type site struct {
 	fn        string
 	args, lhs []string
 	ctx       []string
+	writers   []string
 }
 
 type walker struct {
 	sites []site
+	a     *analysis
+	kwPos token.Pos // keyword of the defer/go statement whose call is being walked
 }
 
 func text(e ast.Expr) string { return types.ExprString(e) }
@@ -57,7 +65,12 @@ func texts(l []ast.Expr) []string {
 }
 
 func (w *walker) emit(fn string, args, lhs, ctx []string) {
-	w.sites = append(w.sites, site{fn, args, lhs, append([]string{}, ctx...)})
+	w.sites = append(w.sites, site{fn, args, lhs, append([]string{}, ctx...), nil})
+}
+
+func (w *walker) emitCall(x *ast.CallExpr, lhs, ctx []string) {
+	w.sites = append(w.sites, site{text(x.Fun), texts(x.Args), lhs, append([]string{}, ctx...),
+		w.a.writersAt(x.Lparen, w.kwPos)})
 }
 
 // exprCalls emits every call inside e in evaluation order (arguments before the call).
@@ -73,7 +86,7 @@ func (w *walker) exprCalls(e ast.Expr, lhs []string, ctx []string) {
 		for _, a := range x.Args {
 			w.exprCalls(a, nil, ctx)
 		}
-		w.emit(text(x.Fun), texts(x.Args), lhs, ctx)
+		w.emitCall(x, lhs, ctx)
 	case *ast.FuncLit:
 		w.block(x.Body, append(append([]string{}, ctx...), "funclit"))
 	default:
@@ -225,9 +238,9 @@ func (w *walker) stmt(s ast.Stmt, ctx []string) {
 		w.exprCalls(x.X, nil, ctx)
 		w.block(x.Body, with(ctx, "for"))
 	case *ast.DeferStmt:
-		w.exprCalls(x.Call, nil, with(ctx, "defer"))
+		w.deferred(x.Call, x.Pos(), with(ctx, "defer"))
 	case *ast.GoStmt:
-		w.exprCalls(x.Call, nil, with(ctx, "go"))
+		w.deferred(x.Call, x.Pos(), with(ctx, "go"))
 	case *ast.BlockStmt:
 		w.block(x, ctx)
 	case *ast.BranchStmt:
@@ -242,6 +255,18 @@ func (w *walker) stmt(s ast.Stmt, ctx []string) {
 	default:
 		w.emit(fmt.Sprintf("<stmt:%T>", s), nil, nil, ctx)
 	}
+}
+
+// deferred: the arguments of a deferred / go call are evaluated now, the call itself is attributed
+// by the call graph to the position of the keyword.
+func (w *walker) deferred(c *ast.CallExpr, kw token.Pos, ctx []string) {
+	w.innerCalls(c.Fun, ctx)
+	for _, a := range c.Args {
+		w.exprCalls(a, nil, ctx)
+	}
+	w.kwPos = kw
+	w.emitCall(c, nil, ctx)
+	w.kwPos = token.NoPos
 }
 
 func leanStr(s string) string {
@@ -277,8 +302,9 @@ func leanList(l []string) string {
 
 type target struct{ pkgDir, fn, leanName string }
 
+var fset = token.NewFileSet()
+
 func findFunc(dir, name string) (*ast.FuncDecl, string, error) {
-	fset := token.NewFileSet()
 	files, _ := filepath.Glob(filepath.Join(dir, "*.go"))
 	sort.Strings(files)
 	var found *ast.FuncDecl
@@ -320,9 +346,23 @@ func main() {
 	repo := flag.String("repo", "/repo", "checkout of Netspoc-Approve")
 	out := flag.String("out", "", "Lean file to write")
 	flag.Parse()
+	if abs, err := filepath.Abs(*repo); err == nil {
+		if r, err := filepath.EvalSymlinks(abs); err == nil {
+			*repo = r
+		}
+	}
+	an, err := analyse(*repo, fset)
+	if err != nil {
+		fmt.Fprintln(os.Stderr, "lockskel:", err)
+		os.Exit(1)
+	}
 	targets := []target{
+		{"go/cmd/drc", "main", "cmdDrcMain"},
+		{"go/cmd/do-approve", "main", "cmdDoApproveMain"},
 		{"go/pkg/drc", "Main", "drcMain"},
 		{"go/pkg/doapprove", "Main", "doapproveMain"},
+		{"go/pkg/drc", "abort", "drcAbort"},
+		{"go/pkg/doapprove", "abort", "doapproveAbort"},
 		{"go/pkg/doapprove", "openHistoryLog", "openHistoryLog"},
 		{"go/pkg/doapprove", "logHistory", "logHistory"},
 		{"go/pkg/device", "SetLock", "setLock"},
@@ -339,7 +379,7 @@ func main() {
 			fmt.Fprintln(os.Stderr, "lockskel:", err)
 			os.Exit(1)
 		}
-		w := &walker{}
+		w := &walker{a: an}
 		w.block(fd.Body, nil)
 		params := []string{}
 		if fd.Type.Params != nil {
@@ -357,10 +397,31 @@ func main() {
 			if i == len(w.sites)-1 {
 				sep = ""
 			}
-			fmt.Fprintf(&b, "  ⟨%s, %s, %s, %s⟩%s\n", leanStr(s.fn), leanList(s.args), leanList(s.lhs), leanList(s.ctx), sep)
+			fmt.Fprintf(&b, "  ⟨%s, %s, %s, %s, %s⟩%s\n", leanStr(s.fn), leanList(s.args), leanList(s.lhs), leanList(s.ctx), leanList(s.writers), sep)
 		}
 		b.WriteString("]\n\n")
 	}
+	pairs := func(l [][2]string) string {
+		q := make([]string, len(l))
+		for i, p := range l {
+			q[i] = "(" + leanStr(p[0]) + ", " + leanStr(p[1]) + ")"
+		}
+		return "[\n  " + strings.Join(q, ",\n  ") + "]"
+	}
+	fmt.Fprintf(&b, "/-- every function outside the module that is called directly from a module function reachable\nfrom `main` of drc or do-approve (VTA call graph): (package or receiver type, name) -/\ndef boundary : List (String × String) := %s\n\n", pairs(an.boundary))
+	fmt.Fprintf(&b, "/-- the functions the translator treats as sinks (file creation / write / rename / removal, process\nstart, pty and HTTP dialogue, flock) -/\ndef sinkApis : List (String × String) := %s\n\n", pairs(sinkAPIs))
+	b.WriteString("/-- every call of a sink API in a reachable module function: enclosing function, sink, first argument -/\ndef sinkSites : List SinkSite := [\n")
+	for i, s := range an.sinks {
+		sep := ","
+		if i == len(an.sinks)-1 {
+			sep = ""
+		}
+		fmt.Fprintf(&b, "  ⟨%s, %s, %s, %s⟩%s\n", leanStr(s.fn), leanStr(s.owner), leanStr(s.name), leanStr(s.arg0), sep)
+	}
+	b.WriteString("]\n\n")
+	fmt.Fprintf(&b, "/-- module functions with a loud sink site -/\ndef writerFns : List String := %s\n\n", leanList(an.writerFns()))
+	fmt.Fprintf(&b, "/-- writer functions reachable from package initialisers -/\ndef initWriters : List String := %s\n\n", leanList(an.initW))
+	fmt.Fprintf(&b, "/-- all `go` statements of the module -/\ndef goStmts : List String := %s\n\n", leanList(an.goStmts))
 	b.WriteString("end NA.Gen.LockSkel\n")
 	if *out == "" {
 		fmt.Print(b.String())
